@@ -1,5 +1,6 @@
 """C06 - the build gate requires a green build on every integration
 commit."""
+from .. import ops
 from ..core import Violation
 from ..world import ROBOT
 from .base import E1Prop
@@ -58,6 +59,7 @@ class C06(E1Prop):
 
     def begin(self, w, rng):
         super().begin(w, rng)
+        self.nrace = 0
         orig = self.gen.g_comment
 
         def g_comment(w_):
@@ -70,6 +72,7 @@ class C06(E1Prop):
             w.note_author_bypass = True
 
     def gen_config(self, rng, tier):
+        self.tier = tier
         cfg = super().gen_config(rng, tier)
         r = rng.random()
         if r < 0.12:
@@ -148,7 +151,59 @@ class C06(E1Prop):
                 self.script = seq
         if getattr(self, 'script', None):
             return self.script.pop(0)
-        return self.gen.next(w)
+        op = self.gen.next(w)
+        if op and op['op'] == 'deliver' and self.nrace < (
+                2 if getattr(self, 'tier', 'quick') == 'quick' else 6) \
+                and rng.random() < 0.25:
+            # the same job, also tried with the author pushing one more
+            # commit on a source branch between the robot's clone and its
+            # decision (the integration tips change under its feet)
+            self.nrace += 1
+            op = dict(op, op='raceprobe', pick=rng.randrange(10 ** 9))
+        return op
+
+    def apply(self, w, op):
+        if op['op'] != 'raceprobe':
+            return ops.apply_op(w, op)
+        import random
+        w.stats['ops'] += 1
+        w.clock.advance(op.get('dt', 1))
+        if not w.events:
+            w.step_digest(op, [])
+            return []
+        ev = w.events.pop(op.get('i', 0) % len(w.events))
+        if 'plans' not in op:
+            def clean(w_):
+                recs = w_.deliver(dict(ev))
+                return recs[0]['ncmd'] if recs else 0
+            ncmd = w.fork_variant(clean)
+            r = random.Random(op['pick'])
+            srcs = sorted(p['src'] for p in w.pr_table()
+                          if p['author'] != ROBOT and p['state'] == 'OPEN'
+                          and p['src'] in w.heads())
+            plans = []
+            if srcs and ncmd:
+                for n in sorted(r.sample(range(ncmd), min(3, ncmd))):
+                    plans.append({'kind': 'thirdparty', 'cmd': n, 'action': {
+                        'do': 'push_src', 'name': r.choice(srcs)}})
+            op['plans'] = plans
+        for plan in list(op['plans']):
+            def run(w_, plan=plan):
+                recs = w_.deliver(dict(ev), plan=dict(plan))
+                for rec in recs:
+                    self.check_job(w_, rec)
+                return recs[0]['status'] if recs else None
+            try:
+                st = w.fork_variant(run)
+            except Violation as v:
+                op['plans'] = [plan]
+                v.detail['plan'] = plan
+                raise
+            w._count_fault('thirdparty:push_src@cmd')
+            w.probe('job-raced-by-a-source-push:%s' % st)
+        recs = w.deliver(ev)
+        w.step_digest(op, recs)
+        return recs
 
     def current(self, w, sha):
         return w.mock.Repository.revisions.get((sha, w.build_key),
@@ -184,6 +239,15 @@ class C06(E1Prop):
                 refs = rec['refs_after'] if status == 'Queued' else \
                     refs_before_last_push_all(rec)
                 tips = integration_tips(refs, pr.src_branch)
+                raced = [t for t in rec.get('third_party') or []
+                         if t.get('do') == 'push_src' and
+                         t.get('name') == pr.src_branch and t.get('sha')]
+                if raced and pr.src_branch in rec['refs_before']:
+                    # the author pushed while the job was running: what the
+                    # job evaluated (and what enters the queue) is the tip
+                    # it cloned, not the one that arrived meanwhile
+                    tips[pr.src_branch] = rec['refs_before'][pr.src_branch]
+                    w.probe('gate-passed-while-the-source-moved')
                 w.probe('gate-passed')
                 # the integration commits are those of the *current* source
                 # tip (new source commits renew them)
